@@ -32,6 +32,7 @@ PROPS = {"C01": c01, "C02": c02, "C03": two_builds("C03"), "C04": two_builds("C0
          "C14": two_builds("C14"),
          "C15": two_builds("C15"),
          "C16": lambda tier, dev: run_cs_property("C16", tier, [Campaign("C16", "plain")], assumptions=ASSUME_GENERIC[:2] + ["comparators are consistent total preorders"], dev=dev),
+         "C20": lambda tier, dev: run_cs_property("C20", tier, [Campaign("C20", "plain")], level="fault_enumeration", assumptions=ASSUME_GENERIC[:2] + ["allocation requests of the statically linked library are intercepted with -Wl,--wrap=malloc,calloc,realloc,free; allocations made inside libc on the library's behalf are not"], dev=dev),
          "C05": lambda tier, dev: run_cs_property("C05", tier, [Campaign("C05", "plain")], assumptions=ASSUME_GENERIC, dev=dev)}
 
 def external(prop, script):
@@ -44,6 +45,7 @@ def external(prop, script):
 
 PROPS["C18"] = external("C18", "props/c18/run.py")
 PROPS["C19"] = external("C19", "props/c19/run.py")
+PROPS["C17"] = external("C17", "props/c17/run.py")
 EXTERNAL_REPLAY = {"C18": "props/c18/run.py", "C19": "props/c19/run.py", "C17": "props/c17/run.py"}
 
 def main():
